@@ -22,13 +22,13 @@ CLAIMED = {
  "C05": ("model-based stateful PBT (slice model), bounded-exhaustive sequences over both queue implementations + rapid drain/refill histories; pointer elements",
          "Every Enqueue/Dequeue/Clear sequence up to the bound over a 3-value alphabet on both implementations (linked one from its mandatory first element), with complete observation (Size, Peek, Search of every value) and a final drain, against a slice model; long random sequences that drain and refill repeatedly." + BOUND,
          "Trusts the slice model; int/string elements; zero value reserved for 'empty'.", "4 (C05/C06)", "pbt"),
- "C06": ("model-based stateful PBT (slice model), bounded-exhaustive sequences over both stack implementations + rapid empty/refill histories; pointer elements",
+ "C06": ("model-based stateful PBT (slice model), bounded-exhaustive sequences over both stack implementations + rapid empty/refill histories; pointer elements and float64 elements (NaN, zero)",
          "Every Push/Pop sequence up to the bound (and every sequence of single observer/mutator calls up to a smaller bound) on both implementations against a slice model with complete observation and a fixed epilogue (drain, pops on empty, refill). One open known finding (LStack.Pop returns the element below the removed one, pinned by the repository's Example) suspends only the comparison of LStack.Pop's return value on a non-empty stack." + BOUND,
          "Trusts the slice model. Known finding lstack-pop-returns-below.", "4 (C05/C06)", "pbt"),
  "C07": ("model-based stateful PBT: bounded-exhaustive operation sequences + rapid random sequences against a recency-list reference model, final drain",
          "Every operation sequence up to length 4 (thorough: 5) over keys 0..3 (0..4) for every capacity 1..4 is executed against a recency-list model (complete inside that bound), plus thousands of seeded random longer sequences with larger capacities; every return value, Count after every step, a final lookup of every key and a final drain by RemoveOldest are compared." + BOUND,
          "Trusts the reference model (about 60 lines) and the Go toolchain; int keys/values only.", "4 (C07)", "pbt"),
- "C08": ("model-based stateful PBT in virtual time (testing/synctest): deadline-targeted timelines, bounded-exhaustive + rapid, map-with-deadlines model; volume (thousands of keys) and interface-valued sub-checks",
+ "C08": ("model-based stateful PBT in virtual time (testing/synctest): deadline-targeted timelines, bounded-exhaustive + rapid, map-with-deadlines model (key alphabet includes the empty string); volume (thousands of keys) and interface-valued sub-checks",
          "Call sequences including Advance-to-{deadline-1ns, deadline, deadline+1ns, next cleanup tick} run inside a synctest bubble, so 'live before the deadline, expired after it' is executed at exact instants for all six default/cleanup configurations; all sequences up to length 3 (thorough 4) over a 50-operation alphabet plus random longer ones against a map-with-deadlines model; Count/List checked after every step. Lenient exactly where the statement is open (the deadline instant itself, expired-but-unpurged entries in Count/List, cleanup within two ticks)." + BOUND,
          "Trusts Go's synctest fake clock and the model; needs the verif hook cache.VerifStopCleanup to end the cleanup goroutine inside the bubble. Real-timer lateness under load is outside what is asserted.", "3.4, 4 (C08)", "pbt"),
  "C09": ("model-based PBT (map model) over key sets and queries, bounded-exhaustive + rapid (arbitrary bytes) + native fuzz target",
@@ -55,10 +55,10 @@ CLAIMED = {
  "C16": ("snapshot-differential PBT: deep snapshots incl. capacity region and sentinels before / DURING (from inside the callbacks) / after every helper call and call pair over a registry of all exported helpers; string results re-compared with byte-wise copies after later calls; results overwritten by the caller and calls repeated; byte/string/float64/struct element types",
          "92 call forms of every exported slice/map helper run on arguments placed in backing arrays with spare capacity and sentinels; all single calls and all ordered pairs sharing an argument are enumerated over a small input scope: arguments must be unchanged (in-place helpers: only their documented argument, never beyond len) and earlier results must not be altered by later calls." + BOUND,
          "Aliasing is judged by observable alteration only (no pointer comparison); string results are compared with byte-wise copies taken when they were returned (sub-check strings).", "4 (C16)", "pbt"),
- "C17": ("timeline PBT in virtual time (synctest) with exact-instant oracle (outcomes value / error / item together with error); sequential sub-checks for results the cache cannot store and for thousands of keys; free-running sub-check with in-flight counters (also race-built in the thorough tier)",
+ "C17": ("timeline PBT in virtual time (synctest) with exact-instant oracle (outcomes value / error / item together with error; key alphabet includes the empty string); cleanup sub-check with purged neighbour entries; sequential sub-checks for results the cache cannot store and for thousands of keys; free-running sub-check with in-flight counters (also race-built in the thorough tier)",
          "Generated call timelines (1-16 callers, 1-3 keys, latencies 0/3/21ms, value/error outcomes, expiry none/40ms) run in a synctest bubble; single flight, provenance of every result, join semantics, cache-hit semantics, error non-caching and key isolation are decided on exact virtual instants, leniently at coinciding instants; every timeline of up to 3 (4) calls is enumerated. A free-running sub-check hammers the API with real goroutines (race-built in the thorough tier)." + BOUND,
          "Trusts synctest's fake clock; the oracle models which results are actually cached (documented in DESIGN).", "4 (C17)", "pbt"),
- "C18": ("exhaustive small-scope PBT with counting callbacks (results incl. the zero value); RetryWithDelay in virtual time with callbacks that take time",
+ "C18": ("exhaustive small-scope PBT with counting callbacks (results incl. the zero value; Once also on a defined string type, pointer, bool and struct{} results); RetryWithDelay in virtual time with callbacks that take time",
          "n in -2..8 x calls 0..12 x every success/failure pattern up to length 8 (the quantifier's full scope) is enumerated for After/Before/Once/Retry/RetryWithDelay with counting callbacks returning fresh values; delays are measured in a synctest bubble." + BOUND,
          "Trusts synctest's fake clock for the delay lower bound.", "4 (C18)", "pbt"),
  "C19": ("model-based stateful PBT (slice model) over both list types with bounded Each, bounded-exhaustive + rapid, fixed closing script; separate sub-checks with repeated values",
